@@ -14,7 +14,7 @@ Open Scope N_scope.
 Definition tloop : list stmt :=
   match lookup "vec_truncate_loop" src_procs with Some p => proc_body p | None => [] end.
 
-Definition tcount : expr := EBin BSub (EVar "current_len") (EVar "len").
+Definition tcount : expr := EMeth1 (EVar "current_len") "saturating_sub" (EVar "len").   (* a range a..b has b - a items, none when b < a *)
 Definition tbody : list stmt :=
   [SDo "decrement_len" [ELit 1];
    SSet "ptr" (EMeth1 (EVar "ptr") "offset_back" (ELit 1));
@@ -124,8 +124,7 @@ Theorem loop_is_trun len cur base tr sc f : len <= cur -> base + cur < W ->
 Proof.
   intros H1 H2 H3. rewrite tloop_is, exec_repeat.
   replace (eval src_fns FUEL_SEM (tenv len cur (base + cur)) tcount) with (Ret (VN (cur - len))).
-  2:{ unfold tcount. cbv beta iota zeta delta [eval FUEL_SEM tenv lookup bind arith String.eqb Ascii.eqb Bool.eqb].
-      replace (len <=? cur) with true by (symmetry; apply N.leb_le; exact H1). reflexivity. }
+  2:{ reflexivity. }
   apply rounds_are_trun; lia.
 Qed.
 
